@@ -336,6 +336,7 @@ def run_case(case, ctx):
     _ST["case"] = case
     _ST["settings_at_call"] = sd
     _ST["nontrivial"] = False
+    _before = [t_.detach().clone() for t_ in (X, y, xs)]
     try:
         with util.settings_ctx(sd, tight=True, n=joint):
             try:
@@ -372,6 +373,7 @@ def run_case(case, ctx):
                     if case["lik"] == "fixed+learn":
                         ref = ref + lik.second_noise.unsqueeze(-1) * torch.eye(ns)
                     ctx.close("likelihood_adds_noise", add, ref.expand(add.shape), "direct", cls="lik:" + case["lik"])
+            ctx.expect("inputs_not_mutated", all(bool(torch.equal(a_.detach(), b_)) for a_, b_ in zip((X, y, xs), _before)), "prediction changed the training inputs / targets / test inputs in place")
     finally:
         _ST["case"] = None
     cell = {k: v for k, v in case.items() if k not in ("seed", "hostile")}
